@@ -4,7 +4,7 @@ TupleHash256.py  (C03 framing, C09 segmentation, C10 call order, C19 input frame
 Spec: /verif/spec/sp800_185.py (written from NIST SP 800-185), primitives uninterpreted (/verif/spec/hashprim.py).
 Native collaborators: contracts/hash_native.py (assumed, bounded/hashes.py)."""
 from vf.pyvc.contracts import Contract, ClassContract
-from .hash_native import hash_registry, opts, NS, SP, BOUNDED
+from .hash_native import hash_registry, opts, fsm_clauses, NS, SP, BOUNDED
 
 C = 'Crypto.Hash.cSHAKE128.'
 C256 = 'Crypto.Hash.cSHAKE256.'
@@ -27,33 +27,32 @@ def add_encoders(reg):
     # of base-256 notation for long_to_bytes' result and ground monotonicity instances of 2**n (engine option int_lemmas)
     for f in ('left', 'right'):
         reg.add(Contract(C + '_%s_encode' % f, params={'x': 'int'}, requires=['0 <= x', 'x < ' + TWO2040],
-                         ensures={'value': 'result == %s%s_encode(x)' % (S185, f),
-                                  'size': 'len(result) >= 2 and len(result) <= 256'},
+                         ensures={'value': 'result == %s%s_encode(x)' % (S185, f), 'size': 'len(result) >= 2 and len(result) <= 256'},
                          raises={}, modifies=[], result='bytes', options=opts(int_lemmas=[2040])))
-    # --- 2.3.2 encode_string
-    reg.add(Contract(C + '_encode_str', params={'x': 'bytes'},
-                     raises={'ValueError': ('iff', '8 * len(x) >= ' + TWO2040)},
-                     ensures={'value': 'result == %sencode_string(bytes(x))' % S185,
-                              'size': 'len(result) >= len(x) + 2 and len(result) <= len(x) + 256'},
+    # --- 2.3.2 encode_string.  The standard's domain 0 <= len(S) < 2**2040 bits holds for every CPython object (len <= 2**63 - 1,
+    # engine option ssize_len), so the ValueError branch is dead: the contract says NO exception escapes.
+    reg.add(Contract(C + '_encode_str', params={'x': 'buffer'}, raises={},
+                     ensures={'value': 'result == %sencode_string(bytes(x))' % S185},
+                     lemmas={'exit': {'size': 'len(result) >= len(x) + 2 and len(result) <= len(x) + 256'}},
                      modifies=[], result='bytes', opaque=[S185 + 'left_encode'], options=opts()))
-    # --- 2.3.3 bytepad: `length` is the rate w; the modulus makes the arithmetic non-linear, so w is instantiated per value
+    # --- 2.3.3 bytepad: `length` is the rate w; the modulus makes the arithmetic non-linear, so w is also instantiated per value.
+    # whole/least are consequences of the value clause, proved here as exit lemmas (not exported to call sites: they only slow callers down)
     reg.add(Contract(C + '_bytepad', params={'x': 'bytes', 'length': 'int[1..255]'},
-                     ensures={'value': 'result == %sbytepad(x, length)' % S185,
-                              'whole': 'len(result) % length == 0',
-                              'least': 'len(result) < len(x) + 256 + length and len(result) >= len(x) + 2'},
+                     ensures={'value': 'result == %sbytepad(x, length)' % S185},
+                     lemmas={'exit': {'whole': 'len(result) % length == 0',
+                                      'least': 'len(result) < len(x) + 256 + length and len(result) >= len(x) + 2'}},
                      raises={}, modifies=[], result='bytes', opaque=[S185 + 'left_encode'], options=opts()))
 
 
 def add_cshake(reg):
     reg.add(ClassContract(XOF, fields={'_state': 'obj:' + SP, '_is_squeezing': 'bool', '_padding': 'int'},
-                          valid=['%s.g_sq ==> self._is_squeezing' % ST,
+                          valid=['%s.g_sq ==> self._is_squeezing' % ST, 'not %s.g_sq ==> %s.g_out == 0' % (ST, ST),
                                  '%s.g_sq ==> %s.g_pad == self._padding' % (ST, ST),
                                  '0 <= self._padding and self._padding <= 255']))
-    custom = '(b"" if custom is None else custom)'
-    named = '((custom is not None and len(custom) > 0) or len(function) > 0)'
-    reg.add(Contract(XOF + '.__init__', params={'data': 'buffer|none', 'custom': 'bytes|none', 'capacity': "enum(256, 512)", 'function': 'bytes'},
+    custom = '(b"" if custom is None else bytes(custom))'
+    reg.add(Contract(XOF + '.__init__', params={'data': 'buffer|none', 'custom': 'buffer|none', 'capacity': "enum(256, 512)", 'function': 'bytes'},
                      requires=['custom is not None or len(function) == 0'],
-                     raises={'ValueError': ('iff', '%s and (8 * len(function) >= %s or 8 * len(custom) >= %s)' % (named, TWO2040, TWO2040))},
+                     raises={},
                      ensures={'absorbed': '%s.g_data == %scshake_prefix(function, %s, 200 - capacity // 8) + (b"" if data is None else bytes(data))'
                                           % (ST, S185, custom),
                               'domain': 'self._padding == %scshake_domain(function, %s)' % (S185, custom),
@@ -67,7 +66,7 @@ def add_cshake(reg):
                      ensures={'absorbed': '%s.g_data == old(%s.g_data) + bytes(data)' % (ST, ST),
                               'self': 'result is self', 'valid': 'valid(self)'},
                      returns='self', modifies=[ST + '.g_data'], options=opts()))
-    reg.add(Contract(XOF + '.read', params={'length': 'nat'}, requires=['valid(self)'], raises={},
+    reg.add(Contract(XOF + '.read', params={'length': 'nat'}, requires=['valid(self)'], raises={'OverflowError': ('iff', 'length > 2**63 - 1')},
                      ensures={'value': 'result == ' + xof_stream('self._padding', 'old(%s.g_out)' % ST, 'length'),
                               'position': '%s.g_out == old(%s.g_out) + length' % (ST, ST),
                               'squeezing': 'self._is_squeezing and %s.g_sq' % ST,
@@ -82,21 +81,98 @@ def add_cshake(reg):
                 'sponge': 'result._state._raw_pointer.g_p1 == %d and result._state._raw_pointer.g_p2 == 24' % (cap // 8),
                 'absorbing': 'not result._is_squeezing and not result._state._raw_pointer.g_sq and result._state._raw_pointer.g_out == 0',
                 'valid': 'valid(result)'}
-        reg.add(Contract(mod + 'new', params={'data': 'buffer|none', 'custom': 'bytes|none'},
-                         raises={'ValueError': ('iff', 'custom is not None and len(custom) > 0 and 8 * len(custom) >= ' + TWO2040)},
+        reg.add(Contract(mod + 'new', params={'data': 'buffer|none', 'custom': 'buffer|none'},
+                         raises={},
                          ensures={k: (v % 'b""' if '%s' in v else v) for k, v in post.items()},
                          modifies=[], result='obj:' + XOF, opaque=ENC_OPAQUE + [S185 + 'cshake_prefix', S185 + 'cshake_domain'], options=opts()))
-        reg.add(Contract(mod + '_new', params={'data': 'buffer|none', 'custom': 'bytes|none', 'function': 'bytes'},
+        reg.add(Contract(mod + '_new', params={'data': 'buffer|none', 'custom': 'buffer|none', 'function': 'bytes'},
                          requires=['custom is not None or len(function) == 0'],
-                         raises={'ValueError': ('iff', '%s and (8 * len(function) >= %s or 8 * len(custom) >= %s)' % (named, TWO2040, TWO2040))},
+                         raises={},
                          ensures={k: (v % 'function' if '%s' in v else v) for k, v in post.items()},
                          modifies=[], result='obj:' + XOF, opaque=ENC_OPAQUE + [S185 + 'cshake_prefix', S185 + 'cshake_domain'], options=opts()))
 
 
+KM = 'Crypto.Hash.KMAC128.'
+KMAC = KM + 'KMAC_Hash'
+TH = 'Crypto.Hash.TupleHash128.'
+TUPLE = TH + 'TupleHash'
+CS = 'self._cshake._state._raw_pointer'
+MAXSIZE = '2**63 - 1'
+# (cSHAKE module, rate in bytes): KMAC128/TupleHash128 = cSHAKE128 (KECCAK[256], rate 168), KMAC256/TupleHash256 = cSHAKE256 (rate 136)
+VARIANTS = (('Crypto.Hash.cSHAKE128', 168), ('Crypto.Hash.cSHAKE256', 136))
+
+
+def cs_stream(pos, n, data=CS + '.g_data'):
+    return 'spec.hashprim.keccak_stream(%s.g_p1, %s.g_p2, 0x04, %s, %s, %s)' % (CS, CS, data, pos, n)
+
+
+def mac_fsm(method, done):
+    """KMAC / TupleHash: FSM MAC.digest_final with the state kept in `done` (the tag has been produced)"""
+    return fsm_clauses('MAC.digest_final', {('update', 'digest', 'verify'): 'not (%s)' % done, ('digest', 'verify'): done}, method)
+
+
+def add_kmac(reg):
+    """SP 800-185 section 4: KMAC(K, X, L, S) = cSHAKE(bytepad(encode_string(K), rate) || X || right_encode(L), L, "KMAC", S).
+    The object's abstract state is the byte string its cSHAKE sponge has absorbed (+ the tag once produced)."""
+    # domain: 8 <= mac_len (module documentation: "Minimum is 8") and mac_len <= sys.maxsize (a longer tag cannot be
+    # materialised: read() raises OverflowError)
+    reg.add(ClassContract(KMAC, fields={'oid': 'str', 'digest_size': 'int', '_mac': 'bytes|none', '_cshake': 'obj:' + XOF},
+                          valid=['8 <= self.digest_size and self.digest_size <= ' + MAXSIZE,
+                                 'self._cshake._padding == 0x04',
+                                 'self._mac is None ==> not self._cshake._is_squeezing',
+                                 'self._mac is not None ==> (len(self._mac) == self.digest_size and self._cshake._is_squeezing)']))
+    done = 'self._mac is not None'
+    for modname, rate in VARIANTS:
+        tag = 'kmac%d' % (128 if rate == 168 else 256)
+        reg.add(Contract(KMAC + '.__init__', params={'data': 'buffer|none', 'key': 'buffer', 'mac_len': 'int', 'custom': 'buffer',
+                                                     'oid_variant': 'str', 'cshake': 'module:' + modname, 'rate': ('const', rate)},
+                         requires=['8 <= mac_len and mac_len <= ' + MAXSIZE], raises={},
+                         ensures={'absorbed': '%s.g_data == %scshake_prefix(b"KMAC", bytes(custom), rate) + %skmac_key_block(bytes(key), rate) + '
+                                              '(b"" if data is None else bytes(data))' % (CS, S185, S185),
+                                  'sponge': '%s.g_p1 == 200 - rate and %s.g_p2 == 24 and self._cshake._padding == 0x04' % (CS, CS),
+                                  'fresh': 'self._mac is None and self.digest_size == mac_len and %s.g_out == 0' % CS,
+                                  'valid': 'valid(self)'},
+                         modifies=['self.oid', 'self.digest_size', 'self._mac', 'self._cshake'],
+                         opaque=ENC_OPAQUE, options=opts(assume_valid=False)))
+        reg.contracts[KMAC + '.__init__#' + tag] = reg.contracts.pop(KMAC + '.__init__')
+        reg.contracts[KMAC + '.__init__#' + tag].target = KMAC + '.__init__'
+    forb, post = mac_fsm('update', done)
+    reg.add(Contract(KMAC + '.update', params={'data': 'buffer'}, requires=['valid(self)'],
+                     raises={'TypeError': ('iff', forb)}, unchanged_on_raise=True,
+                     ensures=dict(post, absorbed='%s.g_data == old(%s.g_data) + bytes(data)' % (CS, CS), self='result is self',
+                                  valid='valid(self)'),
+                     returns='self', modifies=[CS + '.g_data'], options=opts()))
+    forb, post = mac_fsm('digest', done)
+    assert forb == 'False'
+    first = 'old(self._mac) is None'
+    reg.add(Contract(KMAC + '.digest', params={}, requires=['valid(self)'], raises={},
+                     ensures=dict(post,
+                                  # 4.3: newX = ... || X || right_encode(L), L in bits;  tag = first L/8 bytes of the cSHAKE output
+                                  value='%s ==> result == %s' % (first, cs_stream('0', 'self.digest_size', 'old(%s.g_data) + %sright_encode(8 * self.digest_size)' % (CS, S185))),
+                                  idempotent='not %s ==> (result == old(self._mac) and %s.g_data == old(%s.g_data) and %s.g_out == old(%s.g_out))' % (first, CS, CS, CS, CS),
+                                  cached='self._mac == result and len(result) == self.digest_size', valid='valid(self)'),
+                     modifies=['self._mac', CS + '.g_data', CS + '.g_out', CS + '.g_sq', CS + '.g_pad', 'self._cshake._is_squeezing'],
+                     result='bytes', opaque=ENC_OPAQUE, options=opts()))
+    # verify(): ValueError iff the tag differs from digest() -- compared through SHA3-256(secret || .) with 16 fresh random
+    # bytes; SHA3-256 injective = the one assumed cryptographic fact (spec/hashprim.py)
+    forb, post = mac_fsm('verify', done)
+    assert forb == 'False'
+    reg.add(Contract(KMAC + '.verify', params={'mac_tag': 'buffer'}, requires=['valid(self)'],
+                     raises={'ValueError': ('iff', 'bytes(mac_tag) != (%s if self._mac is None else self._mac)' % cs_stream(
+                         '0', 'self.digest_size', '%s.g_data + %sright_encode(8 * self.digest_size)' % (CS, S185)))},
+                     ensures=dict(post, accepted='bytes(mac_tag) == self._mac', valid='valid(self)'),
+                     on_raise={'ValueError': ['valid(self)', 'self._mac is not None']},
+                     modifies=['self._mac', CS + '.g_data', CS + '.g_out', CS + '.g_sq', CS + '.g_pad', 'self._cshake._is_squeezing'],
+                     inline=[KMAC + '.digest'], opaque=ENC_OPAQUE, options=opts()))
+
+
 def registry():
+    from .hash_keccak import add_sha3
     reg = hash_registry()
     add_encoders(reg)
     add_cshake(reg)
+    add_sha3(reg)
+    add_kmac(reg)
     return reg
 
 
